@@ -50,7 +50,7 @@ echo "--- suite WITH change"; /verif/scripts/baseline.sh $S | tail -4
 place_demo
 echo "--- demo WITH change"; run_demo | tail -8
 for d in $demos; do rm -f $S/$d $S/v2/$d $S/lib/$d $S/v2/jd/$d; done
-for p in "$@"; do echo "--- check $p on changed tree"; /verif/bin/jdlint -property $p -root $S -json | python3 -c "
+for p in "$@"; do echo "--- check $p on changed tree"; ${JDLINT:-/verif/bin/jdlint} -property $p -root $S -json | python3 -c "
 import sys,json
 base=set()
 try:
